@@ -52,6 +52,11 @@ def run(tier, seed):
         inputs.append("".join(rnd.choice(full) for _ in range(rnd.randint(1, 8))))
     for _ in range(700 if tier == "quick" else 20000):
         inputs.append("".join(rnd.choice(full[:26] + kana + "漢ー、") for _ in range(rnd.randint(1, 8))))
+    # long key sequences (any internal step bound shows here) and characters that a Unicode normalisation would rewrite: they are not keys
+    inputs += ["a" * 65, "ka" * 70, "kya" * 40, "tt" * 50 + "a", "n" * 130, "xtsu" * 33, "あ" * 100 + "ka", "q" * 200]
+    inputs += ["ｋａ", "ｶ", "ｶﾞ", "㌔", "①", "㈱", "ゟ", "か\u3099", "は\u309a", "ｔｔａ", "Ａ", "１", "ka\u3099", "ﾞ", "ｰ", "￥"]
+    for _ in range(60 if tier == "quick" else 2000):
+        inputs.append("".join(rnd.choice(full[:26]) for _ in range(rnd.randint(66, 140))))
     inputs = list(dict.fromkeys(inputs))
     outs = [r2h(s) for s in inputs]
     tv = dict(table_first(table))
